@@ -5,6 +5,7 @@ C17 — witnesses: clauses of the property that are false of the current code, o
 import WpModel.Props.C17
 import WpModel.Model.LaidOut
 import WpModel.Props.C17Parts
+import WpModel.Props.C17Clip
 import WpModel.Lemmas.ToUnicode
 
 set_option linter.unusedSimpArgs false
@@ -106,6 +107,18 @@ theorem group_background_misses_second_row :
     (Wp.TablePart.groupLayer { exCell 10 with height := 40 } [[exCell 10], [exCell 30]]).1 = (10, 10, 30, 20) ∧
     Wp.TablePart.covers (10, 10, 30, 20) (exCell 10) ∧ ¬ Wp.TablePart.covers (10, 10, 30, 20) (exCell 30) := by
   refine ⟨by decide +kernel, by decide +kernel, by decide +kernel⟩
+
+section Clip
+open Wp.ClipRect
+
+/-- Known finding `clip-auto-sides-swapped`: `clip: rect(0, auto, auto, 10px)` on a 50 × 40 border box at (50, 30).  CSS clips to
+x ∈ [60, 100]; the code writes the rectangle (50, 30, 10, 40): x ∈ [50, 60] — the complement strip. -/
+theorem clip_auto_sides_swapped :
+    xEdges (clipRect 50 30 50 40 ⟨some 0, none, none, some 10⟩) = (50, 60) ∧
+    cssClipEdges 50 30 50 40 ⟨some 0, none, none, some 10⟩ = (60, 100, 30, 70) := by
+  decide +kernel
+
+end Clip
 
 end Wp.C17.Witness
 
